@@ -30,11 +30,12 @@ def tranp_root() -> str:
 
 
 _TRANP_ROOT: str | None = None
-WALL_CAP_S = 10.0
+CAP_S = 10.0        # per input, measured in CPU time of the harness process (ITIMER_PROF): immune to machine load, still catches every loop
+WALL_SAFETY_S = 60.0  # wall-clock safety net (a hang in I/O or sleep); reported like a cap hit, confirmed on a fresh App like every key
 
 
 class WallCap(BaseException):
-	"""Raised by the SIGALRM handler: the input exceeded the wall cap."""
+	"""Raised by the SIGPROF/SIGALRM handler: the input exceeded the time cap."""
 
 
 def _on_alarm(signum: int, frame: Any) -> None:
@@ -104,8 +105,8 @@ def tranp_frames(e: BaseException) -> list[str]:
 def escape_key(e: BaseException, mode: str) -> str:
 	"""Finding key = (escaping class, innermost tranp frame `file:function`).
 
-	* RecursionError: the innermost frame is wherever the interpreter limit happened to be hit, so the key names the most
-	  frequent tranp frame of the traceback instead.
+	* RecursionError: the innermost frame is wherever the interpreter limit happened to be hit, so the key names the cycle instead:
+	  the alphabetically first frame of the repeating group and the number of further frames in it.
 	* The two parser branches differ only inside SyntaxParserOfLark.__load_entry, so the branch is part of the key there
 	  (and only there): `...parser.py:SyntaxParserOfLark.__load_entry[in-memory]`.
 	"""
@@ -113,9 +114,12 @@ def escape_key(e: BaseException, mode: str) -> str:
 	cls = class_name(e)
 	if not frames:
 		return f'{cls}@no-tranp-frame'
-	if isinstance(e, RecursionError):
-		top = Counter(frames).most_common(1)[0][0]
-		return f'{cls}@recursion:{top}'
+	if isinstance(e, RecursionError) and len(frames) >= 200:
+		# the recursion runs through tranp code: the cycle = the distinct frames well inside the 1000-deep stack (the last frames are
+		# the final, non-cyclic descent). With few tranp frames the recursion is inside a library (json, lark) and the innermost
+		# tranp frame — the call into that library — is the stable name, as for every other class.
+		cyc = sorted(set(frames[-150:-30]))
+		return f'{cls}@recursion:{cyc[0]}(+{len(cyc) - 1})'
 	inner = frames[-1]
 	if inner.startswith('implements/syntax/lark/parser.py:'):
 		return f'{cls}@{inner}[{mode}]'
@@ -152,7 +156,7 @@ class Pipeline:
 
 	REBUILD_EVERY = {'in-memory': 2000, 'on-disk': 400}
 
-	def __init__(self, mode: str, base_tmp: str, wall_cap: float = WALL_CAP_S) -> None:
+	def __init__(self, mode: str, base_tmp: str, wall_cap: float = CAP_S) -> None:
 		assert mode in ('in-memory', 'on-disk')
 		self.mode = mode
 		self.base_tmp = base_tmp
@@ -226,6 +230,14 @@ class Pipeline:
 			module = self.resolve(Modules).load(f'fz.{name}')
 		self.transpiler.transpile(module.entrypoint)
 
+	def _arm(self) -> None:
+		signal.setitimer(signal.ITIMER_PROF, self.wall_cap)
+		signal.setitimer(signal.ITIMER_REAL, WALL_SAFETY_S)
+
+	def _disarm(self) -> None:
+		signal.setitimer(signal.ITIMER_PROF, 0)
+		signal.setitimer(signal.ITIMER_REAL, 0)
+
 	def run(self, data: str | bytes) -> Outcome:
 		"""Load + transpile one input under the wall cap; render the error the way bin/transpile.py does (cwd = project)."""
 		from rogw.tranp.view.error_render import ErrorRender
@@ -239,19 +251,21 @@ class Pipeline:
 		if self.mode == 'on-disk':
 			os.chdir(self.proj)
 		caught: BaseException | None = None
+		old_prof = signal.signal(signal.SIGPROF, _on_alarm)
 		try:
-			signal.setitimer(signal.ITIMER_REAL, self.wall_cap)
+			self._arm()
 			try:
 				self._load_and_transpile(data)
 			finally:
-				signal.setitimer(signal.ITIMER_REAL, 0)
+				self._disarm()
 			out = Outcome('ok')
 		except WallCap as e:
 			frames = tranp_frames(e)
-			out = Outcome('timeout', 'WallCap', f'timeout@{Counter(frames).most_common(1)[0][0] if frames else "no-tranp-frame"}', f'no result within {self.wall_cap} s', frames=frames[-6:])
+			out = Outcome('timeout', 'WallCap', f'timeout@{Counter(frames).most_common(1)[0][0] if frames else "no-tranp-frame"}', f'no result within {self.wall_cap} s of CPU time', frames=frames[-6:])
 		except (KeyboardInterrupt, SystemExit, MemoryError):
 			os.chdir(old_cwd)
 			signal.signal(signal.SIGALRM, old_handler)
+			signal.signal(signal.SIGPROF, old_prof)
 			raise
 		except BaseException as e:  # noqa: BLE001 - the escaping class is the observation
 			caught = e
@@ -263,11 +277,11 @@ class Pipeline:
 		if caught is not None:
 			# bin/transpile.py: `print(ErrorRender(e))` (Interactive: for Errors.Error; __main__: for every Exception)
 			try:
-				signal.setitimer(signal.ITIMER_REAL, self.wall_cap)
+				self._arm()
 				try:
 					text = str(ErrorRender(caught))  # type: ignore[arg-type]
 				finally:
-					signal.setitimer(signal.ITIMER_REAL, 0)
+					self._disarm()
 				out.render = 'ok'
 				out.quoted = 'via Node:' in text
 			except WallCap:
@@ -281,6 +295,7 @@ class Pipeline:
 				out.render_message = _safe_str(e2)
 		os.chdir(old_cwd)
 		signal.signal(signal.SIGALRM, old_handler)
+		signal.signal(signal.SIGPROF, old_prof)
 		if out.kind == 'timeout':
 			self.rebuild()
 		return out
